@@ -135,6 +135,55 @@ def both32(n):
     return struct.pack('<L', n) + struct.pack('>L', n)
 
 
+def crc16(data):
+    crc = 0
+    for b in data:
+        crc ^= b << 8
+        for _ in range(8):
+            crc = ((crc << 1) ^ 0x1021) & 0xffff if crc & 0x8000 else (crc << 1) & 0xffff
+    return crc
+
+
+def udf_repoint(seed, rep):
+    """('set', offset, bytes) mutations: every directory File Identifier of the image pointed at every directory File Entry"""
+    out = []
+    part_start = None
+    for sec in range(32, min(len(seed) // 2048, 600)):
+        if struct.unpack_from('<H', seed, sec * 2048)[0] == 5 and struct.unpack_from('<L', seed, sec * 2048 + 12)[0] == sec:
+            part_start = struct.unpack_from('<L', seed, sec * 2048 + 188)[0]
+            break
+    if part_start is None:
+        return out
+    fes = sorted({first - part_start for label, first, cnt in rep.allocs if label.startswith('udf:fe:')})
+    dir_fes = [l for l in fes if 0 <= (part_start + l) * 2048 + 12 < len(seed) and seed[(part_start + l) * 2048 + 27] == 4][:12]
+    for label, first, cnt in rep.allocs:
+        if not label.startswith('udf:fid:'):
+            continue
+        base, end = first * 2048, min(len(seed), (first + cnt) * 2048)
+        off = base
+        guard = 0
+        while off + 38 <= end and guard < 400:
+            guard += 1
+            if struct.unpack_from('<H', seed, off)[0] != 257:
+                break
+            l_fi, l_iu = seed[off + 19], struct.unpack_from('<H', seed, off + 36)[0]
+            ln = (38 + l_iu + l_fi + 3) // 4 * 4
+            chars = seed[off + 18]
+            if chars & 0x02 and off + ln <= end:
+                for target in dir_fes:
+                    fid = bytearray(seed[off:off + ln])
+                    if struct.unpack_from('<L', fid, 24)[0] == target:
+                        continue
+                    struct.pack_into('<L', fid, 24, target)
+                    crc_len = struct.unpack_from('<H', fid, 10)[0]
+                    struct.pack_into('<H', fid, 8, crc16(bytes(fid[16:16 + crc_len])))
+                    fid[4] = 0
+                    fid[4] = sum(fid[:16]) & 0xff
+                    out.append(('set', off, bytes(fid)))
+            off += ln
+    return out[:150]
+
+
 def mutations(rng, seed, rep, budget):
     n = len(seed)
     nsec = n // 2048
@@ -146,6 +195,13 @@ def mutations(rng, seed, rep, budget):
             cuts.update((first, first + cnt, first + 5))
         else:
             cuts.update((first * 2048, first * 2048 + 1, first * 2048 + 34, (first + cnt) * 2048 - 1, first * 2048 + 100))
+    for e in rep.entries:
+        if e.startswith('B:'):
+            try:
+                rba = int([x for x in e.split(':') if x.startswith('rba')][0][3:])
+            except (IndexError, ValueError):
+                continue
+            cuts.update((rba * 2048, rba * 2048 + 64, rba * 2048 + 1000, rba * 2048 + 2047, rba * 2048 + 2048))
     for c in cuts:
         if 0 <= c < n:
             muts.append(('trunc', c))
@@ -290,6 +346,9 @@ def mutations(rng, seed, rep, budget):
                 for v in vals32:
                     muts.append(('set', base + off, struct.pack('<L', v)))
             muts.append(('zero', base, 2048))
+    # UDF File Identifiers re-pointed at other directories' File Entries, with tag CRC and checksum made valid again:
+    # cycles and shared sub-trees that a reader only sees if it follows the pointers
+    muts += udf_repoint(seed, rep)
     # system area / hybrid
     for off in (0, 32, 432, 446, 450, 454, 458, 462, 470, 478, 510, 512, 520, 528, 536, 584, 592, 596, 600):
         for v in (b'\x00' * 4, b'\xff' * 4, b'\x01\x00\x00\x00'):
@@ -302,7 +361,7 @@ def mutations(rng, seed, rep, budget):
         off = rng.randrange(16 * 2048, n)
         muts.append(('set', off, bytes(rng.randrange(256) for _ in range(rng.choice([1, 2, 4, 8])))))
     # the hybrid system-area mutations are few and each field matters: they are always kept; the rest is sampled
-    sysarea = [m for m in muts if m[0] == 'set' and m[1] < 16 * 2048 or (m[0] == 'set' and m[1] >= n - 512)]
+    sysarea = [m for m in muts if m[0] == 'trunc' or (m[0] == 'set' and m[1] < 16 * 2048) or (m[0] == 'set' and m[1] >= n - 512) or (m[0] == 'set' and len(m[2]) >= 38)]
     rest = [m for m in muts if m not in set(sysarea)]
     rng.shuffle(rest)
     return sysarea[:budget // 2] + rest[:max(0, budget - len(sysarea[:budget // 2]))]
@@ -325,7 +384,12 @@ def seed_images(ctx, tmpdir, count):
                 boot['rr'] = 'isolinux'
             if cfg.get('joliet'):
                 boot['joliet'] = '/isolinux'
-            extra = [boot, {'op': 'eltorito', 'boot': '/ISOLINUX.;1', 'kw': {'boot_load_size': 4}}]
+            extra = [boot, {'op': 'eltorito', 'boot': '/ISOLINUX.;1', 'kw': {'boot_load_size': 4, 'boot_info_table': i % 8 == 3}}]
+            if i % 8 == 3:
+                # a boot image with a boot info table that has lost its names: known to the parser through the catalog only
+                extra.append({'op': 'rmlink', 'ns': 'i', 'path': '/ISOLINUX.;1'})
+                if cfg.get('joliet'):
+                    extra.append({'op': 'rmlink', 'ns': 'j', 'path': '/isolinux'})
             if i % 4 == 1:
                 extra.append({'op': 'isohybrid', 'kw': {'efi': True, 'mac': i % 8 == 5} if i % 8 in (1, 5) else {}})
                 if i % 8 in (1, 5):
@@ -355,7 +419,7 @@ def run(ctx):
     tmpdir = tempfile.mkdtemp(prefix='verif-c15-')
     try:
         nseeds = 6 if ctx.quick else 48
-        per_seed = 450 if ctx.quick else 3000
+        per_seed = 2500 if ctx.quick else 8000
         seeds = seed_images(ctx, tmpdir, nseeds)
         jobs = []
         for c, rep in seeds:
